@@ -161,14 +161,14 @@ def make_leaf(facts, roles, set_value, docs, source=0, with_ctx=False):
     return leaf
 
 
-def run_handler(facts, roles, hb, live, dead, docs, plan, rel, source=0, with_ctx=False):
+def run_handler(facts, roles, hb, live, dead, docs, plan, rel, source=0, with_ctx=False, plan_factory=False):
     body, ups, _msg = hb
     results = []
 
     def run(choices):
         set_value = roles.make_set(live=live, dead=dead)
         leaf = make_leaf(facts, roles, set_value, docs, source, with_ctx)
-        scn = Scenario(plan)
+        scn = Scenario(plan() if plan_factory else plan)
         world = World(hooks=[storage_hook(scn, facts)])
         # version-vector oracles of the set
         def both(w, interp, name, args, t, b):
@@ -282,6 +282,26 @@ def check_handlers(ctx, facts, rule):
                 return ('err', [] if ans == 'err-none' else list(keys))
             res = run_handler(facts, roles, hbs['purge'], None, {'k': 'd'}, [], plan, {})
             out[('purge', None, ans)] = res
+        # two tombstones, and storage failing on its FIRST removal call only (a purge that works through its backlog in several calls)
+        for ans in ('ok', 'first-call-fails'):
+            calls_seen = {'n': 0}
+
+            def plan2(m, keys, ans=ans, calls_seen=calls_seen):
+                calls_seen['n'] += 1
+                if ans == 'ok' or calls_seen['n'] > 1:
+                    return ('ok',)
+                return ('err', [])
+
+            def fresh_plan(ans=ans):
+                st = {'n': 0}
+
+                def pl(m, keys):
+                    st['n'] += 1
+                    if ans == 'ok' or st['n'] > 1:
+                        return ('ok',)
+                    return ('err', [])
+                return pl
+            out[('purge2', None, ans)] = run_handler(facts, roles, hbs['purge'], None, {'k1': 'd1', 'k2': 'd2'}, [], fresh_plan, {}, plan_factory=True)
     except (Unmodelled, absint.NeedChoice, IndexError, TypeError, KeyError, AttributeError) as e:
         return _fallback(ctx, rule, e)
 
@@ -408,6 +428,27 @@ def check_handlers(ctx, facts, rule):
                'the set is updated under the source id the message carries' if w is None else
                'a %s message from source %s is applied to the set under source %s (%s): the per-source register of ANOTHER source decides, so an operation that is new to '
                'its own source is refused as stale (or a stale one accepted) — storage is written, the set is not' % (kind, w[0], w[2], w[1]))
+    for ans in ('ok', 'first-call-fails'):
+        bad = []
+        seen = 0
+        for log, res in out[('purge2', None, ans)]:
+            if res and res[0] == 'panic':
+                continue
+            trace, lv, dd, r = res
+            seen += 1
+            calls = [e for e in trace if e[0] == 'storage']
+            removed = set()
+            for i, e in enumerate(calls):
+                if ans == 'ok' or i > 0:
+                    removed |= set(e[2])
+            handed = set(k for e in calls for k in e[2])
+            exp_dd = {k: v for k, v in {'k1': 'd1', 'k2': 'd2'}.items() if k not in removed}
+            if dd != exp_dd:
+                bad.append('storage was asked to remove %s and removed %s, but the set afterwards tracks the tombstones %s (expected %s): the set forgets a tombstone storage still '
+                           'records (it is never purged again) or keeps one storage removed' % ([e[2] for e in calls], sorted(removed), sorted(dd), sorted(exp_dd)))
+        ok_ = seen > 0 and not bad
+        ctx.ob(rule, 'purge|two tombstones, storage %s' % ('succeeds' if ans == 'ok' else 'fails on its first removal call'), ok_, site_of('purge'),
+               'purge of two tombstones: the set forgets exactly the tombstones storage removed, however the removals are batched' if ok_ else bad[0])
     for ans in ('ok', 'err-none', 'err-all'):
         bad = []
         seen = 0
